@@ -14,5 +14,17 @@ for n in [0, 1, 33, 64, 65, 66]:
     H.append(dict(name="p256.UnmarshalBinary-len%d" % n, pkg=PP, files=PF, entry="HarnessP256Unmarshal", mode="int", params={"p0": n}, validate=4,
                   stubs=["crypto/elliptic curve -> harness stub: IsOnCurve returns an arbitrary answer and records its arguments", "math/big.Int as mathematical integer"],
                   functions=["p256.(*curvePoint).UnmarshalBinary", "p256.(*curvePoint).Valid"], bound="input length %d, arbitrary content" % n))
+MP, MF = "./group/mod", ["harness/C04/modint.go"]
+for mod in [2, 251, 256, 257, 65521, 65536, 16777259]:
+    size = (mod.bit_length() + 7) // 8
+    for bo in (0, 1):
+        for ln in sorted({0, size - 1, size, size + 1} - {-1}):
+            H.append(dict(name="mod.Int.UnmarshalBinary-m%d-bo%d-len%d" % (mod, bo, ln), pkg=MP, files=MF, entry="HarnessModIntUnmarshal", mode="int",
+                          params={"p0": mod, "p1": bo, "p2": ln}, validate=4,
+                          stubs=["math/big.Int as mathematical integer"],
+                          functions=["mod.(*Int).UnmarshalBinary", "mod.(*Int).MarshalSize", "mod.reverse", "mod.NewInt64"],
+                          bound="modulus %d, byte order %s, input length %d, arbitrary content" % (mod, ["big", "little"][bo], ln),
+                          tiers=(["quick", "thorough"] if mod in (251, 256, 65521) else ["thorough"]),
+                          mutants=[dict(id="C04b", file="group/mod/int.go", old="\tif i.V.Cmp(compatible.FromCompatibleMod(i.M)) >= 0 {", new="\tif i.V.Cmp(compatible.FromCompatibleMod(i.M)) > 0 {")] if (mod == 251 and ln == size) else []))
 json.dump(dict(property="C04", harnesses=H), open(os.path.join(os.path.dirname(__file__), "..", "specs", "C04.json"), "w"), indent=1)
 print(len(H))
